@@ -105,7 +105,7 @@ def build():
             R.add(f"if_{kind}[{'RegFuture' if use_reg else 'Future'}]", kind="lia", samples=40, max_paths=200)(mk())
 
     # ---------------------------------------------------------------- loops
-    for (n, start, step) in ((0, 0, 1), (1, 0, 1), (3, 0, 1), (5, 1, 2), (6, 2, 2)):
+    for (n, start, step) in ((0, 0, 1), (1, 0, 1), (3, 0, 1), (5, 1, 2), (6, 2, 2), (0, 3, -1), (2, 6, -2), (4, 2, 1), (2, 2, -1), (6, 1, 2), (2, 4, 1)):
         def mk(n=n, start=start, step=step):
             def f(ctx):
                 idxs = list(range(start, n, step))
@@ -293,6 +293,18 @@ def build():
         return f
     for fb in (False, True):
         R.add(f"if[one Future handle in three conditions{', flush in between' if fb else ''}]", kind="lia", samples=40, max_paths=400)(mk_same_future(fb))
+
+    def stale_handle(ctx):
+        a, b, c = ctx.int("a", -100, 100), ctx.int("b", -100, 100), ctx.int("c", -100, 100)
+        conn, ex, _ = _mk(ctx)
+        seen, arr = ctx.call(P.handle_read_by_host_then_changed_then_tested, conn, a, b, c)
+        now = ctx.add(a, b)
+        want = (["x"] if ctx.truth(ctx.eq(now, c)) else []) + (["z"] if ctx.truth(ctx.lt(now, c)) else [])
+        got = [e[1] for e in ex.events if e[0] == "single" and e[1] in ("x", "z")]
+        ctx.check("host-read-after-the-first-flush", ctx.eq(seen, a))
+        ctx.check("conditions on a handle the Host has read are evaluated on the entry's CURRENT value", got == want)
+        ctx.check("host-reads-the-updated-array-back", ctx.and_(ctx.eq(ctx.index(arr, 0), now), ctx.eq(ctx.index(arr, 1), 7)))
+    R.add("if[handle read by the Host, entry changed by a later subroutine, then tested]", kind="lia", samples=40, max_paths=400)(stale_handle)
 
     def arrays_flush(ctx):
         a, b = ctx.int("a", -10 ** 6, 10 ** 6), ctx.int("b", -10 ** 6, 10 ** 6)
